@@ -47,6 +47,11 @@ def scenario(case):
         sk["n_steps"] = int(rng.integers(2, 5))
     else:
         sk["target_efficiency"] = float(np.round(rng.uniform(0.5, 0.9), 3))
+    if case.get("schedule_case") and sk.get("adaptive", True) and int(case["run_index"]) % 2:
+        # schedule checks: BlackJAXSMC forwards the ramp options to the shared loop by itself
+        lo_ = float(np.round(rng.uniform(0.3, 0.5), 3))
+        sk["target_efficiency"] = [lo_, float(np.round(rng.uniform(lo_ + 0.25, 0.95), 3))]
+        sk["target_efficiency_rate"] = float(pick(rng, [0.5, 2.0, 3.0]))
     nf = pick(rng, ["none", "none", "larger"])
     if nf == "larger":
         sk["n_final_samples"] = n + int(rng.integers(3, 12))
@@ -384,6 +389,40 @@ def judge(case, workdir, scn, want):
             "iterations": len(res.history.beta), "probes": probes, "faults_fired": {},
             "nontrivial_keys": [["blackjax_smc", scn["_precond"], scn["_schedule_mode"], scn["sample_kwargs"].get("n_final_samples") is not None]],
             "digest": _digest_run(r), "sample": jsonable({"blackjax": True, "betas": [float(to_np(b)) for b in res.history.beta]})}
+
+
+def judge_schedule(case, workdir, scn, want):
+    """C06 / C07 for BlackJAXSMC: the schedule and bisection oracles on a whole run of the jax-driven variant."""
+    scn = {**scn, "target": {**scn["target"], "nan_region": None, "prior_hole": None}}
+    r = run(case, scn, workdir, probes=False)
+    where = r["where"]
+    sk = scn["sample_kwargs"]
+    if r["status"] != "ok":
+        V = []
+        if "c06" in want and r["status"] == "error":
+            V.append(O.violation("c06.raises", f"valid schedule options {{{', '.join(f'{k}={v}' for k, v in sk.items() if k != 'sampler_kwargs')}}} "
+                                 f"made the BlackJAXSMC run raise {r['error']}", {**where, "sampler": "blackjax_smc"}))
+        return {"violations": V, "aborted": None if V else {"why": "run did not finish", "error": r["error"]}, "evaluations": 1, "events": 0,
+                "nontrivial_keys": [], "digest": digest_of([r["status"], r["error"]]), "probes": {}}
+    res = as_result(r, scn)
+    pops = list(res.history.sample_history)
+    if any(not np.all(np.isfinite(np.asarray(to_np(p.x), dtype=np.float64))) for p in pops + [res.samples]):
+        return {"violations": [], "aborted": {"why": "population collapsed onto one point (whitening undefined)"}, "evaluations": 1,
+                "events": 0, "nontrivial_keys": [], "digest": digest_of("collapsed"), "probes": {"collapsed_population": 1}}
+    V, probes = [], {"blackjax_runs": 1}
+    if "c06" in want:
+        V += O.check_schedule(res, scn)
+    if "c07" in want:
+        vs, st = O.check_bisection(res, scn)
+        V += vs
+        for k, v in st.items():
+            if v:
+                probes["c07." + k] = v
+    mode = "ramp" if isinstance(sk.get("target_efficiency"), list) else scn["_schedule_mode"]
+    return {"violations": V, "aborted": None, "evaluations": 1, "events": 0, "iterations": len(res.history.beta), "probes": probes,
+            "faults_fired": {}, "nontrivial_keys": [["blackjax_smc", mode, scn["_precond"], min(len(res.history.beta), 12)]],
+            "digest": _digest_run(r), "sample": jsonable({"blackjax": True, "schedule_options": {k: v for k, v in sk.items() if k != "sampler_kwargs"},
+                                                         "betas": [float(to_np(b)) for b in res.history.beta]})}
 
 
 def judge_resume(case, workdir, scn):
